@@ -5,7 +5,6 @@ pub mod alloc;
 pub mod json;
 
 use std::cell::RefCell;
-use std::io::Write;
 use std::panic::{catch_unwind, AssertUnwindSafe};
 use std::sync::Once;
 
@@ -117,6 +116,8 @@ pub fn normalise_site(site: &str) -> String {
 
 pub struct Breadcrumb {
     file: Option<std::fs::File>,
+    prev_len: usize,
+    buf: Vec<u8>,
 }
 
 impl Breadcrumb {
@@ -125,26 +126,33 @@ impl Breadcrumb {
         if let Some(f) = &file {
             alloc::set_breadcrumb_fd(std::os::fd::AsRawFd::as_raw_fd(f));
         }
-        Breadcrumb { file }
+        Breadcrumb { file, prev_len: 0, buf: Vec::with_capacity(16 * 1024) }
     }
 
+    pub fn active(&self) -> bool {
+        self.file.is_some()
+    }
+
+    /// one positioned write: the line, padded with spaces over whatever the previous line left behind
     pub fn set(&mut self, line: &str) {
         if let Some(f) = &mut self.file {
-            use std::io::Seek;
-            let mut buf = Vec::with_capacity(line.len() + 1);
-            buf.extend_from_slice(line.as_bytes());
-            buf.push(b'\n');
-            let _ = f.set_len(0);
-            let _ = f.seek(std::io::SeekFrom::Start(0));
-            let _ = f.write_all(&buf);
+            use std::os::unix::fs::FileExt;
+            self.buf.clear();
+            self.buf.extend_from_slice(line.as_bytes());
+            self.buf.push(b'\n');
+            let len = self.buf.len();
+            while self.buf.len() < self.prev_len {
+                self.buf.push(b' ');
+            }
+            self.prev_len = len;
+            let _ = f.write_all_at(&self.buf, 0);
         }
     }
 
     pub fn clear(&mut self) {
         if let Some(f) = &mut self.file {
-            use std::io::Seek;
             let _ = f.set_len(0);
-            let _ = f.seek(std::io::SeekFrom::Start(0));
+            self.prev_len = 0;
         }
     }
 }
